@@ -23,7 +23,7 @@ impl<'lib> ProtoExporter<'lib> {
     /// ASSUMED element-wise contracts of the two iterator map/collect idioms (rule R6)
     #[verifier::external_body]
     fn vp_export_instances(&mut self, insts: &Vec<Instance>) -> (r: LayoutResult<Vec<proto::Instance>>)
-        ensures r is Ok ==> r->Ok_0@.len() == insts@.len(),
+        ensures r is Ok ==> r->Ok_0@.len() == insts@.len() && forall|i: int| 0 <= i < insts@.len() ==> inst_exp(#[trigger] r->Ok_0@[i], insts@[i]),
     { unimplemented!() }
     #[verifier::external_body]
     fn vp_export_annotations(&mut self, v: &Vec<TextElement>) -> (r: LayoutResult<Vec<proto::TextElement>>)
@@ -63,6 +63,10 @@ pub open spec fn layer_msg_is(g: proto::LayerShapes, k: LKey, es: Seq<Element>) 
     &&& g.rectangles@.len() == of_kind(es, 0).len() &&& forall|i: int| 0 <= i < of_kind(es, 0).len() ==> rect_is(#[trigger] g.rectangles@[i], of_kind(es, 0)[i].inner->Rect_0) && net_exp(g.rectangles@[i].net@, of_kind(es, 0)[i].net)
     &&& g.polygons@.len() == of_kind(es, 1).len() &&& forall|i: int| 0 <= i < of_kind(es, 1).len() ==> poly_is(#[trigger] g.polygons@[i], of_kind(es, 1)[i].inner->Polygon_0) && net_exp(g.polygons@[i].net@, of_kind(es, 1)[i].net)
     &&& g.paths@.len() == of_kind(es, 2).len() &&& forall|i: int| 0 <= i < of_kind(es, 2).len() ==> path_is(#[trigger] g.paths@[i], of_kind(es, 2)[i].inner->Path_0) && net_exp(g.paths@[i].net@, of_kind(es, 2)[i].net)
+}
+pub open spec fn insts_annots_exp(g: proto::Layout, cell: Layout) -> bool {
+    &&& forall|i: int| 0 <= i < cell.insts@.len() ==> inst_exp(#[trigger] g.instances@[i], cell.insts@[i])
+    &&& forall|i: int| 0 <= i < cell.annotations@.len() ==> (#[trigger] g.annotations@[i]).string@ == cell.annotations@[i].string@ && g.annotations@[i].loc is Some && same_pt(g.annotations@[i].loc->0, cell.annotations@[i].loc)
 }
 pub open spec fn elems_small(es: Seq<Element>) -> bool { forall|i: int| 0 <= i < es.len() ==> shape_small((#[trigger] es[i]).inner) }
 /// the grouping state after the first `n` elements: the order list is first_seen, the table holds exactly those keys, each with its group in order
@@ -122,12 +126,15 @@ impl<'lib> ProtoExporter<'lib> {
 //|     ensures r is Ok ==> ({
 //|         let g = r->Ok_0; let order = first_seen(cell.elems@);
 //|         &&& g.name@ == cell.name@ &&& g.instances@.len() == cell.insts@.len() &&& g.annotations@.len() == cell.annotations@.len()
+//|         // one message per instance and per annotation, in order
+//|         &&& forall|i: int| 0 <= i < cell.insts@.len() ==> inst_exp(#[trigger] g.instances@[i], cell.insts@[i])
+//|         &&& forall|i: int| 0 <= i < cell.annotations@.len() ==> (#[trigger] g.annotations@[i]).string@ == cell.annotations@[i].string@ && g.annotations@[i].loc is Some && same_pt(g.annotations@[i].loc->0, cell.annotations@[i].loc)
 //|         // one layer message per distinct (layer, purpose), in first-seen order, each holding exactly its group's shapes, in order, by kind
 //|         &&& g.shapes@.len() == order.len()
 //|         &&& forall|q: int| 0 <= q < order.len() ==> layer_msg_is(#[trigger] g.shapes@[q], order[q], group(cell.elems@, order[q]))
 //|     }),
 //@   loop 1 iter it
-//|             invariant obeys_key_model::<LKey>(), elems_small(cell.elems@), pcell.name@ == cell.name@, pcell.instances@.len() == cell.insts@.len(), pcell.annotations@.len() == cell.annotations@.len(),
+//|             invariant obeys_key_model::<LKey>(), elems_small(cell.elems@), pcell.name@ == cell.name@, pcell.instances@.len() == cell.insts@.len(), pcell.annotations@.len() == cell.annotations@.len(), insts_annots_exp(pcell, *cell),
 //|                 pcell.shapes@.len() == 0, it.index@ <= cell.elems@.len(), grouped(layers@, layerorder@, cell.elems@.take(it.index@ as int)),
 //|                 forall|i: int| 0 <= i < it.index@ ==> nums((#[trigger] cell.elems@[i]).layer, cell.elems@[i].purpose) is Some,
 //@   before /if layers\.contains_key\(&\(number, purpose\)\) \{/
@@ -144,7 +151,7 @@ impl<'lib> ProtoExporter<'lib> {
 //|         proof { assert(cell.elems@.take(cell.elems@.len() as int) == cell.elems@); }
 //|         let ghost order = layerorder@;
 //@   loop 2 iter it2
-//|             invariant obeys_key_model::<LKey>(), elems_small(cell.elems@), pcell.name@ == cell.name@, pcell.instances@.len() == cell.insts@.len(), pcell.annotations@.len() == cell.annotations@.len(),
+//|             invariant obeys_key_model::<LKey>(), elems_small(cell.elems@), pcell.name@ == cell.name@, pcell.instances@.len() == cell.insts@.len(), pcell.annotations@.len() == cell.annotations@.len(), insts_annots_exp(pcell, *cell),
 //|                 layerorder@ == order, grouped(layers@, order, cell.elems@), it2.index@ <= order.len(), pcell.shapes@.len() == it2.index@,
 //|                 forall|q: int| 0 <= q < it2.index@ ==> layer_msg_is(#[trigger] pcell.shapes@[q], order[q], group(cell.elems@, order[q])),
 //@   before /let elems = layers\.get\(&layernums\)\.unwrap\(\);/
